@@ -403,6 +403,32 @@ fn main() {
         t
     });
 
+    // E12: zero-padded fields of every length: leading zeros in the exponent, in the integer part and after the
+    // point (valid numerals whose TEXT is long while the number is small): a parser may bound a field by the
+    // length its value needs, never by the length of its spelling
+    let pad_max: usize = tier.pick(130, 600);
+    run.bound("E12_zero_padding", format!("0..={}", pad_max));
+    run.par("E12 zero-padded exponents and digit fields", pad_max + 1, |z| {
+        let mut t = Tally::default();
+        let zs = "0".repeat(z);
+        let forms: Vec<String> = vec![
+            format!("1.5e{}3", zs), format!("1.5e+{}3", zs), format!("-25E-{}17", zs), format!("7e{}0", zs), format!("7e-{}", if z == 0 { "0".to_string() } else { zs.clone() }),
+            format!("{}12.5", zs), format!("-{}12.5e3", zs), format!("0.{}5", zs), format!("{}.{}", zs, zs), format!("1_{}e{}9", zs, zs), format!("3e{}9223372036854775807", zs), format!("3e-{}9223372036854775808", zs),
+            format!("3e{}9223372036854775808", zs),
+        ];
+        for f in forms {
+            t.states += 1;
+            t.nontrivial += 1;
+            for e in ENTRIES {
+                t.transitions += 1;
+                if let Some(v) = check(e, f.as_bytes(), 10) {
+                    run.report(v);
+                }
+            }
+        }
+        t
+    });
+
     // E9: long inputs of every outcome class (valid, scale overflow, i128 overflow, second dot, underscores)
     // with a multi-byte character inserted at / substituted for every position: no byte offset computed from
     // the length may ever be used to slice the input
